@@ -182,6 +182,20 @@ def invalid_at(e) -> bool:
     return False
 
 
+def in_k1_class(e) -> bool:
+    """an O- or X-run whose flattened operand list contains a bare hint key and a bare format-constraint key (known finding K1 of C05:
+    there, and only there, the grouping of a same-operator run decides validity)"""
+    def walk(f):
+        if f[0] in T.OPS:
+            if f[0] in (T.OR, T.XOR):
+                kinds = {kind_of(a[1]) for a in f[1] if a[0] == "cond"}
+                if {"hint", "fc"} <= kinds:
+                    return True
+            return any(walk(a) for a in f[1])
+        return False
+    return walk(T.flat(e))
+
+
 def well_formed(e) -> bool:
     """the quantifier of C04/C06: juxtaposition attaches a single fc key to a hint leaf or to an operand containing an rc"""
     if T.is_leaf(e):
